@@ -131,6 +131,14 @@ def run_shard(desc, ctx):
         for s in stretch.class_border_inputs(stretch.CSS_NUMBER_SLOTS):
             check('css', s, 'css:class-border', ctx, fns)
             check('cssval', s, 'css:class-border', ctx, fns)
+        # every construct that can be left open, cut right after an escape character (the scanner must not step over the end of the input)
+        for pre in ('', 'a', 'ul>li'):
+            for opener in ('{', '[a="', "[a='", '{${1:', '[a=${1:', '{${', '[a={', '(a{', '[a="${1:', '{${ab', '{a{b', '[a=b', '${1:'):
+                for body in ('', 'x', 'C:', '\\'):
+                    s = pre + opener + body + '\\'
+                    check('markup', s, 'markup:open-construct-ending-in-escape', ctx, fns)
+                    check('css', 'p' + opener + body + '\\', 'css:open-construct-ending-in-escape', ctx, fns)
+                    check('cssval', opener + body + '\\', 'css:open-construct-ending-in-escape', ctx, fns)
         # digit runs around the interpreter's int <-> str limit: at its default, lowered by the host at run time, and switched off
         def limit_runs(limit):
             eff = limit or 4300
